@@ -1228,11 +1228,12 @@ impl StorageEngine {
                 Value::List(list) => {
                     let len = list.len() as isize;
                     
-                    let start = if start < 0 { (len + start).max(0) } else { start } as usize;
-                    let stop = if stop < 0 { (len + stop).max(0) } else { stop } as usize;
+                    let start = if start < 0 { (len + start).max(0) } else { start };
+                    let stop = if stop < 0 { len + stop } else { stop };
                     
                     let mut new_list = VecDeque::new();
                     for (i, item) in list.iter().enumerate() {
+                        let i = i as isize;
                         if i >= start && i <= stop {
                             new_list.push_back(item.clone());
                         }
